@@ -14,14 +14,34 @@ import (
 
 var pnames = []string{"zqa", "zqb", "zqc", "zqd", "zqe", "zqf", "zqg", "zqh", "zqi", "zqj", "zqk", "zql", "zqm", "zqn"}
 
+// allowKw is the model's name (Model.allow_kw) of the keyword :allow-other-keys.
+const allowKw = 999
+
 type docArg struct {
 	marker string // "" for a variable
 	id     int
 	def    *int
+	form   string // the default as written in the lambda list (a literal or a form with the value *def)
+}
+
+// kwName is the Lisp spelling of the keyword the model calls AKw id.
+func kwName(id int) string {
+	if id == allowKw {
+		return ":allow-other-keys"
+	}
+	return ":" + pnames[id]
 }
 
 func Run(ctx *common.Ctx) {
 	scope := slip.NewScope()
+	// two parameter names are also global variables: a parameter of that name must get its argument or its
+	// default, never the global value (C04-2)
+	for _, g := range []string{"(defvar zqc 777)", "(defvar zqf 778)", "(defvar zqglobal 700)"} {
+		if o := common.EvalIn(scope, g); o.Err != "" {
+			ctx.Violate("defvar failed", g, o.Err+": "+o.Msg, nil)
+		}
+	}
+	checkMissingValueCondition(ctx, scope)
 	nlists, perList := 120, 14
 	if ctx.Thorough() {
 		nlists, perList = 1500, 30
@@ -40,13 +60,30 @@ func Run(ctx *common.Ctx) {
 			if withDef && ctx.Rng.Chance(60) {
 				x := 50 + ctx.Rng.Intn(40)
 				d.def = &x
+				d.form = fmt.Sprint(x)
+				// a third of the defaults are forms that must be evaluated (C04-1), some referring to a global
+				switch ctx.Rng.Intn(6) {
+				case 0:
+					k := 1 + ctx.Rng.Intn(9)
+					d.form = fmt.Sprintf("(+ %d %d)", x-k, k)
+					ctx.Hist("default:form")
+				case 1:
+					k := ctx.Rng.Intn(20)
+					x = 700 + k
+					d.form = fmt.Sprintf("(+ zqglobal %d)", k) // a global variable, seen through the scope being built
+					ctx.Hist("default:form")
+				default:
+					ctx.Hist("default:literal")
+				}
 			}
 			return d
 		}
-		for i := ctx.Rng.Intn(4); i > 0; i-- {
+		nreq, nopt := ctx.Rng.Intn(4), 0
+		for i := nreq; i > 0; i-- {
 			ds = append(ds, v(false))
 		}
 		if n := ctx.Rng.Intn(3); n > 0 {
+			nopt = n
 			ds = append(ds, docArg{marker: "&optional"})
 			for i := 0; i < n; i++ {
 				ds = append(ds, v(true))
@@ -57,14 +94,18 @@ func Run(ctx *common.Ctx) {
 			ds = append(ds, docArg{marker: "&rest"}, v(false))
 		}
 		var keyIDs []int
+		hasKey, hasAllow := false, false
 		if ctx.Rng.Chance(50) {
+			hasKey = true
 			ds = append(ds, docArg{marker: "&key"})
 			for i := ctx.Rng.Intn(4); i > 0; i-- {
 				keyIDs = append(keyIDs, next)
 				ds = append(ds, v(true))
 			}
-			if ctx.Rng.Chance(10) {
+			if ctx.Rng.Chance(25) {
 				ds = append(ds, docArg{marker: "&allow-other-keys"})
+				hasAllow = true
+				ctx.Hist("&allow-other-keys")
 			}
 		}
 		var auxIDs []int
@@ -94,7 +135,7 @@ func Run(ctx *common.Ctx) {
 				}
 				gds = append(gds, fmt.Sprintf("{| d_name := %s; d_def := None |}", map[string]string{"&optional": "POptional", "&rest": "PRest", "&key": "PKey", "&aux": "PAux", "&allow-other-keys": "PAllow"}[d.marker]))
 			case d.def != nil:
-				ll = append(ll, fmt.Sprintf("(%s %d)", pnames[d.id], *d.def))
+				ll = append(ll, fmt.Sprintf("(%s %s)", pnames[d.id], d.form))
 				gds = append(gds, fmt.Sprintf("{| d_name := PVar %d; d_def := Some (%d)%%Z |}", d.id, *d.def))
 				body = append(body, fmt.Sprintf("(if (boundp '%s) %s :unbound)", pnames[d.id], pnames[d.id]))
 			default:
@@ -116,7 +157,15 @@ func Run(ctx *common.Ctx) {
 		for k := 0; k < perList; k++ {
 			// argument vector: positional integers, then (if keys exist) keyword material
 			var args, gargs []string
-			npos := ctx.Rng.Intn(7)
+			// the positional arguments: usually at least the required ones (a call with too few is rejected
+			// since C04-8 and tells nothing else), up to one more than the positional parameters, more with &rest
+			npos := nreq + ctx.Rng.Intn(nopt+2)
+			if hasRest && ctx.Rng.Chance(50) {
+				npos += ctx.Rng.Intn(4)
+			}
+			if nreq > 0 && ctx.Rng.Chance(10) {
+				npos = ctx.Rng.Intn(nreq)
+			}
 			for i := 0; i < npos; i++ {
 				if ctx.Rng.Chance(kwChance) && len(kwPool) > 0 {
 					id := common.Pick(ctx.Rng, kwPool)
@@ -131,16 +180,51 @@ func Run(ctx *common.Ctx) {
 					gargs = append(gargs, fmt.Sprintf("AInt %d", z))
 				}
 			}
-			if len(keyIDs) > 0 || ctx.Rng.Chance(10) {
-				for i := ctx.Rng.Intn(4); i > 0; i-- {
+			if hasKey || ctx.Rng.Chance(10) {
+				// a permissive call: other keys are allowed by the lambda list, or by a leading :allow-other-keys 1
+				// (a fifth of the calls of a lambda list with &key, half of them when its key section is empty);
+				// such a call carries more keywords that name no &key parameter - unknown ones and the names of
+				// the other parameters, which must keep their values
+				permissive := hasAllow
+				if hasKey && !hasAllow && (ctx.Rng.Chance(20) || (len(keyIDs) == 0 && ctx.Rng.Chance(40))) {
+					permissive = true
+					args = append(args, ":allow-other-keys", "1") // any non-nil value is true
+					gargs = append(gargs, fmt.Sprintf("AKw %d", allowKw), "AInt 1")
+					ctx.Hist("arg::allow-other-keys")
+				}
+				lure := false
+				if hasKey && !permissive && ctx.Rng.Chance(6) {
+					// of several :allow-other-keys the FIRST counts: this call is not permissive
+					lure = true
+					args = append(args, ":allow-other-keys", "nil", ":allow-other-keys", "1")
+					gargs = append(gargs, fmt.Sprintf("AKw %d", allowKw), "ANil", fmt.Sprintf("AKw %d", allowKw), "AInt 1")
+					ctx.Hist("arg::allow-other-keys nil, then true")
+				}
+				declared, allowArg, otherParam := 76, 84, 90
+				if permissive || lure {
+					declared, allowArg, otherParam = 45, 52, 80
+					ctx.Hist("permissive-call")
+				}
+				npairs := ctx.Rng.Intn(4)
+				if (permissive || lure) && npairs == 0 {
+					npairs = 1
+				}
+				for i := npairs; i > 0; i-- {
 					id := next + 1 // unknown key
-					if len(keyIDs) > 0 && ctx.Rng.Chance(88) {
+					switch r := ctx.Rng.Intn(100); {
+					case len(keyIDs) > 0 && r < declared:
 						id = common.Pick(ctx.Rng, keyIDs)
+					case r < allowArg:
+						id = allowKw // :allow-other-keys, with a true or a nil value below
+						ctx.Hist("arg::allow-other-keys")
+					case r < otherParam && next > 0:
+						id = ctx.Rng.Intn(next) // the name of any parameter: required, optional, rest, aux
+						ctx.Hist("arg:keyword-naming-some-parameter")
 					}
-					if id >= len(pnames) {
+					if id != allowKw && id >= len(pnames) {
 						id = len(pnames) - 1
 					}
-					args = append(args, ":"+pnames[id])
+					args = append(args, kwName(id))
 					gargs = append(gargs, fmt.Sprintf("AKw %d", id))
 					if !ctx.Rng.Chance(7) { // sometimes the value is missing
 						if ctx.Rng.Chance(15) {
@@ -194,9 +278,11 @@ func Run(ctx *common.Ctx) {
 				gout, shown = "OErr KTooMany", "!too-many"
 			case strings.HasPrefix(out.Msg, "Too few arguments"):
 				gout, shown = "OErr KTooFew", "!too-few"
-			case strings.Contains(out.Msg, "Missing value for key"):
-				gout, shown = "OErr KFault", "!go-panic: "+out.Msg
-			case out.Err == "type-error":
+			case out.Err == "error" && strings.HasPrefix(out.Msg, "Missing value for key"):
+				gout, shown = "OErr KBadKey", "!missing-key-value"
+			case out.Err == "program-error" && strings.Contains(out.Msg, "is not a keyword parameter of"):
+				gout, shown = "OErr KBadKey", "!unknown-key"
+			case out.Err == "type-error" && strings.HasPrefix(out.Msg, "keyword to function"):
 				gout, shown = "OErr KBadKey", "!type-error"
 			default:
 				gout, shown = "OErr KFault", "!"+out.Err+": "+out.Msg
@@ -216,7 +302,7 @@ func Run(ctx *common.Ctx) {
 		}
 	}
 	ctx.Meta.DistinctNontrivial = len(distinct)
-	ctx.Meta.Rule = "lambda lists: 0-3 required x 0-2 &optional (60% with a literal default) x &rest (35%, a third of them spelled &body) x &key with 0-3 keys (50%, 10% &allow-other-keys) x &aux (25%); per list 14 (thorough 30) argument vectors: 0-6 positional integers (6% a keyword naming a key parameter instead; 25% a keyword naming the &aux parameter when the list has &rest and &aux but no &key) followed by 0-3 keyword/value pairs (12% unknown key, 7% missing value, duplicates possible); the body reports every parameter or :unbound; for 45% of the lambda lists the first four calls are repeated through a caller compiled while the function still had another lambda list (redefinition history); distinct = distinct (lambda list, argument vector) pairs"
+	ctx.Meta.Rule = "lambda lists: 0-3 required x 0-2 &optional (60% with a default: two thirds a literal, the others a form to evaluate such as (+ 70 4) or (+ zqglobal 4)) x &rest (35%, a third of them spelled &body) x &key with 0-3 keys (50%, a quarter of them with &allow-other-keys) x &aux (25%); the parameter names zqc and zqf are also global variables; per list 14 (thorough 30) argument vectors: required + 0..optional+1 positional integers (10% fewer than required; with &rest half of them 0-3 more; 6% a keyword naming a key parameter instead; 25% a keyword naming the &aux parameter when the list has &rest and &aux but no &key) followed by 0-3 keyword/value pairs (76% a declared key, 8% :allow-other-keys with a true or nil value, 6% the name of some other parameter, 10% an unknown key; 7% missing value, duplicates possible); calls of a lambda list with &allow-other-keys, and a fifth of the others with &key (half when the key section is empty) after a leading :allow-other-keys 1, are permissive: at least one pair, 45% declared, 7% :allow-other-keys, 28% the name of another parameter, 20% unknown; 6% of the other calls start with :allow-other-keys nil :allow-other-keys 1 (the first counts: not permissive) and go on like a permissive one; the body reports every parameter or :unbound; for 45% of the lambda lists the first four calls are repeated through a caller compiled while the function still had another lambda list (redefinition history); distinct = distinct (lambda list, argument vector) pairs"
 	header := "From C04 Require Import Model Spec Corr.\nOpen Scope N_scope.\n"
 	footer := "Definition res := Eval vm_compute in check_all cases.\nPrint res.\nDefinition gcount := Eval vm_compute in guard_count cases.\nPrint gcount.\n"
 	ctx.WriteShards("cases", header, "case", footer, terms, descs, 16)
@@ -244,6 +330,9 @@ func gValue(v slip.Object) string {
 		if t == ":unbound" {
 			return "VUnbound"
 		}
+		if string(t) == ":allow-other-keys" {
+			return fmt.Sprintf("VKw %d", allowKw)
+		}
 		for i, n := range pnames {
 			if string(t) == ":"+n {
 				return fmt.Sprintf("VKw %d", i)
@@ -260,6 +349,9 @@ func gValue(v slip.Object) string {
 				xs = append(xs, fmt.Sprintf("AInt (%d)%%Z", int64(te)))
 			case slip.Symbol:
 				id := 99
+				if string(te) == ":allow-other-keys" {
+					id = allowKw
+				}
 				for i, n := range pnames {
 					if string(te) == ":"+n {
 						id = i
@@ -273,4 +365,34 @@ func gValue(v slip.Object) string {
 		return "VList " + common.GList(xs)
 	}
 	return "VUnbound"
+}
+
+// checkMissingValueCondition: a keyword argument without a value must surface as a slip condition also when
+// the lambda is called through the Go API (Lambda.Call), not as a Go panic carrying a string (C04-3).
+func checkMissingValueCondition(ctx *common.Ctx, scope *slip.Scope) {
+	o := common.EvalIn(scope, "(lambda (&key zqb) zqb)")
+	lam, _ := o.Value.(*slip.Lambda)
+	if lam == nil {
+		ctx.Violate("(lambda (&key zqb) zqb) does not evaluate to a lambda", "(lambda (&key zqb) zqb)", common.ShowOutcome(o), "a lambda")
+		return
+	}
+	var r any
+	func() {
+		defer func() { r = recover() }()
+		lam.Call(scope, slip.List{slip.Symbol(":zqb")}, 0)
+	}()
+	ctx.Meta.Evaluations++
+	_, raw := r.(string)
+	ctx.KnownResult("C04-missing-key-value-panics", raw, fmt.Sprintf("panic(%T)", r))
+	switch r.(type) {
+	case *slip.Panic, slip.Object:
+		ctx.Hist("missing-key-value:condition")
+	case string:
+		// reported through the finding above (a regression when it is recorded as fixed)
+	case nil:
+		ctx.Violate("a keyword argument without a value is accepted", "Lambda.Call of (lambda (&key zqb) zqb) with (:zqb)", "no error", "an error condition")
+	default:
+		ctx.Violate("a keyword argument without a value raises a raw Go panic, not a condition", "Lambda.Call of (lambda (&key zqb) zqb) with (:zqb)",
+			fmt.Sprintf("panic(%T): %v", r, r), "a slip condition (slip.Object)")
+	}
 }
